@@ -14,7 +14,8 @@ PYEXACT = ['py/none', 'py/bool', 'py/str', 'py/unicode', 'py/bytes', 'py/int', '
            'py/list', 'py/tuple', 'py/dict']
 PYPREFIX = ['py/name:', 'py/module:', 'py/object:', 'py/object/new:', 'py/object/apply:']
 LOOKALIKE = ['py/name', 'py/', 'py/objectx:', 'py/object/applyx:', 'lpy/object/apply:', 'unknown', 'local', 'localpct']
-ALLNAMES = ['res', 'rescls', 'noattr', 'lazy', 'builtin', 'unimp', 'unimpsub', 'missing', 'iter', 'subunimp', 'pct']
+ALLNAMES = ['res', 'rescls', 'noattr', 'lazy', 'builtin', 'unimp', 'unimpsub', 'missing', 'iter', 'subunimp', 'pct', 'trap',
+            'alias']
 
 BASETEXT = {b: Y + b for b in CORE12 + REPO3 + ['unknown']}
 BASETEXT.update({b: Y + 'python/' + b[3:] for b in PYEXACT + PYPREFIX + ['py/name', 'py/', 'py/objectx:', 'py/object/applyx:']})
@@ -22,10 +23,12 @@ BASETEXT.update({'lpy/object/apply:': '!python/object/apply:', 'local': '!foo', 
 NAMETEXT = {'res': 'verif_canary.fire', 'rescls': 'verif_canary.Obj', 'noattr': 'verif_canary.nosuch',
             'lazy': 'verif_canary.lazyattr', 'builtin': 'vcanary_bfire', 'unimp': 'verif_unimported.fire',
             'unimpsub': 'verif_unimp_pkg.sub.fire', 'missing': 'verif_no_such_mod.fire', 'iter': 'verif_canary.ITER',
-            'subunimp': 'verif_pkg.plugin', 'pct': 'verif_canary.f%25s', 'e': ''}
+            'subunimp': 'verif_pkg.plugin', 'pct': 'verif_canary.f%25s', 'trap': 'verif_canary.TRAP',
+            'alias': 'verif_no_such_alias.fire', 'e': ''}        # 'alias' is chosen by Instruments (alias_name)
 MODTEXT = {'res': 'verif_canary', 'rescls': 'verif_canary', 'noattr': 'verif_canary', 'lazy': 'verif_canary',
            'builtin': 'builtins', 'unimp': 'verif_unimported', 'unimpsub': 'verif_unimp_pkg.sub',
-           'missing': 'verif_no_such_mod', 'iter': 'verif_canary', 'subunimp': 'verif_pkg', 'pct': 'verif_canary', 'e': ''}
+           'missing': 'verif_no_such_mod', 'iter': 'verif_canary', 'subunimp': 'verif_pkg', 'pct': 'verif_canary',
+           'trap': 'verif_canary', 'alias': 'verif_no_such_alias', 'e': ''}
 GOOD = {'null': '~', 'bool': 'yes', 'int': '12', 'float': '1.5', 'binary': 'aGk=', 'timestamp': '2001-01-01',
         'py/none': 'null', 'py/bool': 'true', 'py/bytes': 'aGk=', 'py/int': '7', 'py/long': '8', 'py/float': '2.5',
         'py/complex': '1+2j'}
@@ -139,7 +142,7 @@ class Printer:
 
     def ref(self, v):
         if not v['id']:
-            return {'x': 'x', 'k': 'k', 'M': '<<', 'V': '='}[v['s']]
+            return {'x': 'x', 'E': "''", 'k': 'k', 'M': '<<', 'V': '='}[v['s']]
         return self.node(v['id'])
 
     def node(self, i):
@@ -163,6 +166,32 @@ class Printer:
 
 
 # ---------------------------------------------------------------- observing one load
+def alias_name():
+    """Concretisation of the name class 'alias': a module name that cannot be imported as written, but that the
+    interpreter's own compatibility table (pickle's fix_imports: _compat_pickle.IMPORT_MAPPING) translates to a standard
+    module that is importable and NOT imported in this process.  For the loaders it is a missing module.  Which of the
+    candidates is used depends on VERIF_SEED."""
+    import importlib.util
+    try:
+        import _compat_pickle
+        table = sorted(_compat_pickle.IMPORT_MAPPING.items())
+    except Exception:
+        table = []
+    cands = []
+    for old, new in table:
+        if '.' in old or '.' in new or old in sys.modules or new in sys.modules or new in ('tkinter', 'winreg'):
+            continue
+        try:
+            if importlib.util.find_spec(old) is None and importlib.util.find_spec(new) is not None:
+                cands.append(old)
+        except Exception:
+            pass
+    if not cands:
+        return 'verif_no_such_alias.fire', 'verif_no_such_alias'
+    m = cands[SEED % len(cands)]
+    return m + '.fire', m
+
+
 class Instruments:
     def __init__(self, yaml):
         self.yaml = yaml
@@ -172,7 +201,8 @@ class Instruments:
         self.canary = verif_canary
         self.pkg = verif_pkg
         builtins.vcanary_bfire = verif_canary.fire
-        self.attrs = {id(verif_canary.fire), id(verif_canary.Obj), id(verif_canary.LAZY), id(verif_canary.ITER)}
+        self.attrs = {id(verif_canary.fire), id(verif_canary.Obj), id(verif_canary.LAZY), id(verif_canary.ITER),
+                      id(verif_canary.TRAP)}
         self.events = []
         self.on = False
         sys.addaudithook(self._hook)
@@ -184,6 +214,7 @@ class Instruments:
                     yaml.load(d, Loader=getattr(yaml, L))
                 except Exception:
                     pass
+        NAMETEXT['alias'], MODTEXT['alias'] = alias_name()
 
     def _hook(self, name, args):
         if self.on:
@@ -332,7 +363,7 @@ def work(states, extra):
                 continue
             r, l = req[c], lval[c]
             off = set(tlaset(r['off']))
-            undisp = bool(r['mustErr'] and not (off & set(tlaset(l['vis']))))
+            undisp = bool(r['mustErr'] and not (off & set(tlaset(r['proper']))))     # the case class of the known finding (Construct.tla: Undispatched)
             key = (c, bool(r['mustErr']), undisp, o['st'], o['ex'], tuple(o['ty']), tuple(o['eff']))
             p = res['pairs'].get(key)
             if p is None:
